@@ -357,7 +357,11 @@ def type_expr(T: dict) -> str:
     if k == "map":
         return f"{T.get('c', 'Dict')}[{type_expr(T['kt'])}, {type_expr(T['vt'])}]"
     if k == "union":
-        return "Union[" + ", ".join(type_expr(a) for a in T["alts"]) + "]"
+        parts = [type_expr(a) for a in T["alts"]]
+        # alternatives marked Unsupported: ignored by apischema, present in the declaration
+        for pos, t in sorted(T.get("uns", []), key=lambda p: p[0]):
+            parts.insert(pos - 1, f"Annotated[{type_expr(t)}, Unsupported]")
+        return "Union[" + ", ".join(parts) + "]"
     if k == "lit":
         return "Literal[" + ", ".join(lit_expr(v) for v in T["vals"]) + "]"
     if k == "enum":
@@ -372,7 +376,9 @@ def type_expr(T: dict) -> str:
         if T.get("mode", "explicit") == "default":
             args = repr(T["alias"])
         else:
-            mapping = "{" + ", ".join(f"{key!r}: {type_expr(a)}" for keys, a in zip(T["keys"], T["alts"]) for key in keys) + "}"
+            pairs = [(keys, a) for keys, a in zip(T["keys"], T["alts"])
+                     if not (T.get("mode") == "partial" and list(keys) == [a.get("cls")])]   # partial: the others stay implicit
+            mapping = "{" + ", ".join(f"{key!r}: {type_expr(a)}" for keys, a in pairs for key in keys) + "}"
             args = f"{T['alias']!r}, {mapping}"
         return "Annotated[Union[" + ", ".join(type_expr(a) for a in T["alts"]) + f"], discriminator({args})]"
     raise ValueError(f"bad type {T}")
@@ -405,6 +411,7 @@ from apischema.metadata import (flatten, properties, required, skip, none_as_und
                                 fall_back_on_default, init_var, default_as_set, post_init)
 from apischema.fields import with_fields_set
 from apischema.dependencies import dependent_required
+from apischema.visitor import Unsupported
 CALLS = []
 NoneType = type(None)
 """
